@@ -1,6 +1,7 @@
 """C11 - matching individuals on any schedule (spec/Matching.tla [PlusCal], MatchingOps.tla, trace/MatchingTrace.tla;
 harness/matching; hooks in /repo under the build tag verif)."""
 import json
+import os
 import re
 
 from . import common
@@ -112,15 +113,23 @@ def run(ctx):
     ctx.vh(["matching", "run", str(6 if quick else 12)], stdin_path=cfgs, stdout_path=obs, timeout=3000)
     bad, total = common.validate_obs(ctx, "MatchingTrace", "MatchingTrace", "matching_obs.ndjson", obs, timeout=3000, chunk=20000)
     drift = 0
+    drift_by = {}
+    drift_example = {}
     for o in bad:
         ex = o["spec_extras"]
         if ex[0] == "model":
             drift += 1
+            drift_by[ex[1]] = drift_by.get(ex[1], 0) + 1
+            drift_example.setdefault(ex[1], {"jobs": o["jobs"], "I": o["I"], "logs": o["logs"], "final": o["final"]})
             continue
         ctx.violation({"clause": ex[1]}, "%s (jobs=%s GOMAXPROCS=%s)" % (ex[1], o["jobs"], o["gomax"]),
                       {"cfg": o["cfg"], "jobs": o["jobs"], "gomax": o["gomax"], "seed": o["seed"], "final": o["final"], "seq": o["seq"],
                        "timeout": o["timeout"], "panic": o["panic"], "I": o["I"]})
     ctx.extra["drift_not_counted"] = drift
+    ctx.extra["drift_by_clause"] = drift_by
+    if os.environ.get("VERIF_DEBUG_DRIFT"):
+        with open(os.environ["VERIF_DEBUG_DRIFT"], "w") as fh:
+            json.dump(drift_example, fh)
     with open(obs) as fh:
         for k, l in enumerate(fh):
             if k in (1, 7):
